@@ -404,7 +404,7 @@ func (ssm *serverSessionMedia) writePacketRTCP(pkt rtcp.Packet) error {
 
 	maxPlainPacketSize := ssm.ss.s.MaxPacketSize
 	if ssm.srtpOutCtx != nil {
-		maxPlainPacketSize -= srtcpOverhead
+		maxPlainPacketSize -= srtcpOverhead + len(ssm.srtpOutCtx.mki)
 	}
 
 	if len(plain) > maxPlainPacketSize {
